@@ -519,6 +519,10 @@ class Engine:
             u = o["uneval"]
             if "promoted" in u:
                 return self.promoted(fr, u["promoted"])
+            if not u["args"]:
+                v = self.const_value(u["canon"])
+                if v is not None:
+                    return v
             return ("constref", u["canon"], tuple(u["args"]), u.get("name"))
         if "tyconst" in o:
             # a const generic parameter: its value when the enclosing (inlined) function was instantiated with a literal
@@ -528,6 +532,34 @@ class Engine:
                 return C(int(re.match(r"^\d+", v).group(0)), ty if ty in INT_BITS else "usize")
             return ("tyconst", o["tyconst"], ty)
         return unknown("const " + ty)
+
+    def const_value(self, canon):
+        """value of a non-generic constant item of the analysed crates, from its own MIR body (aggregates of constants only)"""
+        memo = self.__dict__.setdefault("_const_memo", {})
+        if canon in memo:
+            return memo[canon]
+        memo[canon] = None
+        f = self.facts.fn_by_canon(canon)
+        if f is None or f.argc != 0 or not f.blocks:
+            return None
+        sub = Engine(self.facts, max_visits=1, max_steps=2000)
+        try:
+            paths = sub.run(f, [])
+        except Exception:
+            return None
+        if len(paths) != 1 or paths[0].status != "return":
+            return None
+
+        def closed(t, d=0):
+            if not isinstance(t, tuple):
+                return True
+            if d > 12 or (t and t[0] in ("unknown", "call", "init", "ref", "param", "constref")):
+                return False
+            return all(closed(x, d + 1) for x in t)
+        v = paths[0].ret
+        if v is not None and v[0] == "agg" and closed(v):
+            memo[canon] = v
+        return memo[canon]
 
     def promoted(self, fr, idx):
         fn = fr["fn"]
